@@ -1,6 +1,6 @@
 """C12 — message-type dispatch is consistent across every entry point."""
 from .common import Report
-from . import dispatch
+from . import dispatch, valid
 
 LEVEL = "translation_validation"
 EXPLANATION = ("Every hand-maintained 30-way dispatch table of the crate (auto parser, wrapper enum "
@@ -19,6 +19,9 @@ def run(F, tier):
     dispatch.wrapper_enum(rep, F, ids)
     dispatch.t03(rep, F)
     dispatch.d2(rep, F)
+    # the typed API, the wrapper enum and the plugin must give one verdict for one message: the adapters around
+    # validate_network_rules keep every error and derive validity from that list only
+    valid.s3(rep, F)
     rep.programs = len(tabs) + len(ids)
     rep.cells = sum(len(t.arms) for t in tabs)
     for t in tabs[:6]:
